@@ -180,6 +180,12 @@ def run_small(shard, rec, B):
 def run_rand(shard, rec, B):
     rng = gen.rng_for(rec)
     Ns = [3, 3, 4, 4, 5, 6] if B.name == "np" else [3, 3, 4]
+    for N in (1, 3):
+        tg, tp, r = O.random_tableau(rng, N)
+        S = B.State(tg.copy(), tp.copy(), r)
+        ok, xs = rec.attempt("exp.empty", N, lambda: S.expect(B.PauliList(np.zeros((0, 2 * N), dtype=np.int64), np.zeros(0, dtype=np.int64))))
+        if ok:
+            rec.check("exp.empty", B.npf(xs).reshape(-1).shape == (0,), ["empty", N], False)
     for t in range(shard["n"]):
         N = Ns[t % len(Ns)]
         tg, tp, r = O.random_tableau(rng, N, r=[0, 0, None][t % 3])
